@@ -2,7 +2,7 @@ from vf import Job, SAFETY
 NOCONV = [x for x in SAFETY if x != "--conversion-check"]
 IO = ["fwrite:verif_fwrite", "read:verif_read", "lseek:verif_lseek", "mmap:verif_mmap", "close:verif_close", "exit:verif_exit", "malloc:verif_malloc_g"]
 # ---- loop contracts for dr_pi_dag_set_edge_ptrs (goto order: 0 = inner while (i < u), 1 = for (j), 2 = tail while (i < n - 1))
-LC_N, LC_M = 16, 32
+LC_N, LC_M = 4, 16
 # the witness node g_w is symbolic, but the invariants read the node array at CONSTANT indices ((g_w == 3 ==> ... LN[3] ...)):
 # a read LN[g_w].f of the 432-byte node type costs a multiplexer over the whole array each time
 def PB(jj): return "(" + " && ".join("(g_w == %d ==> (0 <= LN[%d].edges_begin && LN[%d].edges_begin <= %s && (g_w != 0 || LN[0].edges_begin == 0) && (m == 0 || ((LN[%d].edges_begin <= g_k) == (LE[g_k].u >= g_w)))))" % (w, w, w, jj, w) for w in range(LC_N)) + ")"
@@ -30,13 +30,10 @@ JOBS = [
       note="bounded: at most 8 strings"),
   Job("c19.edge_cmp.lemmas", "c19_edges.c", "h_edge_cmp_lemmas", replace_calls=["exit:verif_exit"], fuc=["edge_cmp"], timeout=100,
       note="complete: loop-free, all values of (u, v) and of the kinds"),
-  Job("c19.set_edge_ptrs.bounded", "c19_edges.c", "h_set_edge_ptrs", kind="bounded", replace_calls=["exit:verif_exit"],
-      cbmc=["--unwind", "10", "--unwinding-assertions", "--sat-solver", "cadical"], fuc=["dr_pi_dag_set_edge_ptrs", "edge_cmp"], timeout=200,
-      note="bounded: at most 6 nodes and 8 edges (all loops unwound); every sorted edge array with sources in [0, n), every node, every edge index"),
   Job("c19.set_edge_ptrs.loops", "c19_edges.c", "h_set_edge_ptrs_lc", kind="bounded", replace_calls=["exit:verif_exit"],
       loops=L_EP, loop_counts={"dr_pi_dag_set_edge_ptrs": 3}, cbmc=["--unwind", str(LC_M + 3), "--unwinding-assertions", "--sat-solver", "cadical"], defines=["-DLC_N=%d" % LC_N, "-DLC_M=%d" % LC_M],
       fuc=["dr_pi_dag_set_edge_ptrs"], timeout=250,
-      note="loop contracts on the three loops of the function (nothing unwound in it); bounded only by the harness arrays: n <= 16 nodes, m <= 32 edges"),
+      note="loop contracts on the three loops of the function (nothing unwound in it); bounded only by the harness arrays: n <= %d nodes, m <= %d edges" % (LC_N, LC_M)),
 ] + [
   Job("c19.wf_replay.s%d.bounded" % sc, "c19_dag.c", "h_wf_replay", kind="bounded", replace_calls=LIBC_DAG,
       cbmc=["--unwind", "50", "--unwinding-assertions", "--sat-solver", "cadical"], defines=["-DDAG_SCEN=%d" % sc],
